@@ -280,3 +280,25 @@ Example cr_only_declaration_fixed :
   /\ change_do repaired std_lookup refute_cr_file None (fst (from_bytes repaired std_lookup refute_cr_file) ++ [121; 10]) None
      = WBytes (refute_cr_file ++ [121; 13]).
 Proof. vm_compute. split; reflexivity. Qed.
+
+(* ---- the hypothesis "the edit keeps the declaration" of C16_change_preserves_rest is necessary --------------------
+   (findings C16-import-above-header / C16-move-takes-header / C16-move-above-blank-header, fixed in the refactorings
+   by 0fb88c4 / 495d665 / 40406b4: refactorings whose
+   NEW TEXT has the coding line below line 2 or not at all)
+   file "#!/bin/sh\n# coding: latin-1\ns = 'é'\n" in Latin-1; new text = "import d\n" + the old text: the declaration
+   is on line 3 of the new text, write_file finds none and writes UTF-8 *)
+Definition moved_decl_file : list N := [35;33;47;98;105;110;47;115;104;10;35;32;99;111;100;105;110;103;58;32;108;97;116;105;110;45;49;10;115;32;61;32;39;233;39;10].
+Definition moved_decl_new : text := [105;109;112;111;114;116;32;100;10;35;33;47;98;105;110;47;115;104;10;35;32;99;111;100;105;110;103;58;32;108;97;116;105;110;45;49;10;115;32;61;32;39;233;39;10].
+
+Theorem edit_moving_declaration_refuted :
+  exists b new b' expected,
+    declared_codec repaired std_lookup b = Some latin1 /\ enc latin1 (fst (from_bytes repaired std_lookup b)) = Some b
+    /\ cookie_of new = None /\ cookie_of b = Some latin_1_name
+    /\ change_do repaired std_lookup b None new None = WBytes b'
+    /\ enc latin1 new = Some expected /\ b' <> expected.
+Proof.
+  exists moved_decl_file, moved_decl_new.
+  exists (bytes_of (change_do repaired std_lookup moved_decl_file None moved_decl_new None)).
+  exists (some_of (enc latin1 moved_decl_new)).
+  vm_compute. repeat split; try reflexivity. discriminate.
+Qed.
